@@ -74,6 +74,29 @@ fn f32_up(lo: f32, hi: f32, stride: u32, mut f: impl FnMut(f64)) {
 
 fn vec_s(v: &[f64]) -> String { format!("[{}]", v.iter().map(|x| format!("{:e}", x)).collect::<Vec<_>>().join(", ")) }
 
+/// (audit) the clauses of the property that need no second evaluation, on one finite vector: length, finiteness, sign,
+/// sum (same (n + 8) eps allowance as the main sweep), and order / ties along the WHOLE sorted order (consecutive pairs)
+fn softmax_clauses(x: &[f64], fd: &mut Found) {
+    let n = x.len();
+    let inp = format!("x={}", vec_s(x));
+    if crumbs_on() { crumb(&inp); }
+    let s = softmax(x);
+    if s.len() != n { fd.fail("softmax:length", 1.0, format!("output length {} for input length {}", s.len(), n), inp); return; }
+    if let Some(bad) = s.iter().find(|v| !v.is_finite()) {
+        fd.fail("softmax:nonfinite-for-finite-input", 1.0 / n as f64, format!("softmax of a finite vector of length {} (max |x| = {:e}) contains {:e}", n, x.iter().fold(0.0f64, |a, b| a.max(b.abs())), bad), inp);
+        return;
+    }
+    if s.iter().any(|v| !(*v >= 0.0)) { fd.fail("softmax:negative", 1.0, "softmax returned a negative component".into(), inp.clone()); }
+    let sum: f64 = { let mut hi = 0.0f64; let mut lo = 0.0f64; for v in &s { let t = hi + v; lo += if hi.abs() >= v.abs() { (hi - t) + v } else { (v - t) + hi }; hi = t; } hi + lo };
+    let tol = (n as f64 + 8.0) * EPS;
+    if !((sum - 1.0).abs() <= tol) { fd.fail("softmax:sum-not-one", (sum - 1.0).abs() / tol, format!("components sum to {:e} (|sum - 1| > {:e}), n = {}", sum, tol, n), inp.clone()); }
+    let mut idx: Vec<usize> = (0..n).collect();
+    idx.sort_by(|a, b| x[*a].partial_cmp(&x[*b]).unwrap());
+    for w in idx.windows(2) { let (i, j) = (w[0], w[1]);
+        if !(s[i] <= s[j]) || (x[i] == x[j] && s[i] != s[j]) {
+            fd.fail("softmax:order-not-preserved", 1.0, format!("x[{}] = {:e} <= x[{}] = {:e} but softmax gives {:e} > {:e}", i, x[i], j, x[j], s[i], s[j]), inp.clone()); break; } }
+}
+
 // ------------------------------------------------------------------------------------------------
 // failure-search oracle: the property statement on the implementation
 // ------------------------------------------------------------------------------------------------
@@ -113,6 +136,19 @@ pub fn oracle(tier: &str, seed: u64) -> (u64, Vec<Finding>) {
             for _ in 0..(if thorough { 20000 } else { 2000 }) { chk(x, &mut tried, &mut fd); x = f64::from_bits(x.to_bits() + 1); }
             chk(0.0, &mut tried, &mut fd);
         }
+        // (audit) ulp-scale runs straddling the points where the evaluation changes regime: the first subnormals above 0,
+        // 1 + exp(-x) rounding to 1 (36.04, 36.74, 37.43), exp(x) overflowing for the mirrored argument (709.78),
+        // exp(-x) reaching the subnormals / 0 (708.4, 745.13), and the end of the stated range
+        for c in [5e-324, f64::MIN_POSITIVE, 36.04365338911715, 36.7368005696771, 37.42994775023705, 708.3964185322641, 709.782712893384, 745.0, 745.1332191019411] {
+            let half = if thorough { 10000u64 } else { 1000 };
+            let mut x: f64 = f64::from_bits((c as f64).to_bits().saturating_sub(half).max(1));
+            chk(0.0, &mut tried, &mut fd);
+            for _ in 0..2 * half { chk(x, &mut tried, &mut fd); x = f64::from_bits(x.to_bits() + 1); }
+            chk(0.0, &mut tried, &mut fd);
+        }
+        // (audit) past the stated range the function is constant 0 / 1: range, symmetry and monotonicity must survive
+        for x in [745.2, 746.0, 800.0, 1e3, 1e4, 1e10, 1e100, 1e300, f64::MAX] { chk(x, &mut tried, &mut fd); }
+        chk(0.0, &mut tried, &mut fd);
         for (x, want) in [(f64::NEG_INFINITY, 0.0), (0.0, 0.5), (f64::INFINITY, 1.0)] {
             tried += 1;
             if logistic(x) != want { fd.fail("logistic:limit", 1.0, format!("logistic({:e}) = {:e}, expected {:e}", x, logistic(x), want), format!("x={:e}", x)); }
@@ -137,6 +173,22 @@ pub fn oracle(tier: &str, seed: u64) -> (u64, Vec<Finding>) {
         f32_up(0.0, 1.0, if thorough { 1 << 2 } else { 1 << 9 }, |p| chk(p, &mut tried, &mut fd));
         for _ in 0..(if thorough { 200000 } else { 20000 }) { let p = r.unit(); chk(p, &mut tried, &mut fd); chk(1.0 - p * 1e-9, &mut tried, &mut fd); chk(p * 1e-200, &mut tried, &mut fd); }
         for p in [0.0, -0.0, 1.0, 0.5, 5e-324, 1.0 - EPS / 2.0, f64::MIN_POSITIVE] { chk(p, &mut tried, &mut fd); }
+        // (audit) the whole of [0,1] on a logarithmic scale from both ends and around 1/2 (the sweeps above are uniform,
+        // f32 or at 1e-200 / 1e-9 only): p down to the smallest subnormal, 1 - p and |p - 1/2| down to one ulp
+        for _ in 0..(if thorough { 200000 } else { 20000 }) {
+            chk((r.uniform(-745.2, 0.0)).exp(), &mut tried, &mut fd);
+            chk(1.0 - (r.uniform(-37.5, 0.0)).exp(), &mut tried, &mut fd);
+            chk(0.5 + (r.uniform(-38.0, -0.7)).exp() * if r.coin(0.5) { 1.0 } else { -1.0 }, &mut tried, &mut fd);
+        }
+        // (audit) the first doubles above 0 (subnormals), the last below 1, the neighbours of 1/2, of the smallest normal
+        for i in 0..(if thorough { 20000u64 } else { 2000 }) {
+            chk(f64::from_bits(1 + i), &mut tried, &mut fd);
+            chk(f64::from_bits((1.0f64).to_bits() - 1 - i), &mut tried, &mut fd);
+            chk(f64::from_bits((0.5f64).to_bits() + i), &mut tried, &mut fd);
+            chk(f64::from_bits((0.5f64).to_bits() - 1 - i), &mut tried, &mut fd);
+            chk(f64::from_bits(f64::MIN_POSITIVE.to_bits() + i), &mut tried, &mut fd);
+            chk(f64::from_bits(f64::MIN_POSITIVE.to_bits() - 1 - i), &mut tried, &mut fd);
+        }
         for p in [-5e-324, -1e-300, -1.0, 1.0 + EPS, 2.0, 1e300, f64::INFINITY, f64::NEG_INFINITY, f64::NAN, -0.5, 1.5] {
             tried += 1;
             crumbf!("p={:e}", p);
@@ -189,6 +241,28 @@ pub fn oracle(tier: &str, seed: u64) -> (u64, Vec<Finding>) {
                 if !(d <= tol) { fd.fail("softmax:not-shift-invariant", if d.is_nan() { 1e300 } else { d / tol }, format!("component {}: softmax(x) = {:e}, softmax(x + {:e}) = {:e}", i, s[i], c, t[i]), inp.clone()); break; }
             }
         }
+        // (audit) the ends of the stated size range and the regimes the random draw above reaches rarely or never:
+        // lengths 1, 2, 999, 1000 at every scale; entries exactly +-1e4; one dominant entry / one entry far below; all entries
+        // within a few ulps of each other (order at the resolution of the input, off the 2^-10 grid); magnitudes past 1e4
+        // up to f64::MAX ("regardless of magnitude": x - max overflows to -inf there)
+        let reps = if thorough { 40 } else { 4 };
+        for rep in 0..reps { for n in [1usize, 2, 3, 7, 8, 9, 255, 256, 999, 1000] { for scale in [1.0, 700.0, 745.2, 1e4] {
+            let mut x: Vec<f64> = (0..n).map(|_| r.uniform(-scale, scale)).collect();   // off the grid
+            match rep % 4 { 1 => { x[0] = scale; x[n - 1] = -scale; }                                    // the stated extremes, first / last index
+                            2 => { for v in x.iter_mut() { *v = -scale; } let i = r.below(n as u64) as usize; x[i] = scale; }   // one dominant entry
+                            3 => { let c = r.uniform(-scale, scale); for v in x.iter_mut() { *v = f64::from_bits(c.to_bits() + r.below(4)); } } // ulp neighbours
+                            _ => {} }
+            tried += 1;
+            softmax_clauses(&x, &mut fd);
+        } } }
+        for n in [1usize, 2, 5, 1000] { for scale in [1e5, 1e10, 1e100, 1e300, f64::MAX] {
+            let mut x: Vec<f64> = (0..n).map(|_| r.uniform(-1.0, 1.0) * scale).collect();
+            tried += 1; softmax_clauses(&x, &mut fd);
+            x[0] = scale; x[n - 1] = -scale;
+            tried += 1; softmax_clauses(&x, &mut fd);
+            for v in x.iter_mut() { *v = -scale; }
+            tried += 1; softmax_clauses(&x, &mut fd);
+        } }
         // the textbook instances
         for x in [vec![1000.0, 1000.0], vec![1000.0], vec![-1000.0, -1000.0], vec![1e4, -1e4, 0.0], vec![710.0, 0.0]] {
             tried += 1;
@@ -236,6 +310,66 @@ pub fn oracle(tier: &str, seed: u64) -> (u64, Vec<Finding>) {
                 fd.fail("boxcox_shifted:accepts-outside-domain", 1.0, format!("boxcox_shifted({:e}, {:e}, {:e}) returned {:e} although x + alpha = {:e} <= 0", xs, l, a, got, y), inp);
             }
         }
+        // (audit) what the random draw above leaves out of "x in (1e-6, 1e6), lambda in +-5 including |lambda| < 1e-8, shifts of
+        // both signs": the corners of the rectangle (x at either end with lambda = +-5 exactly), lambda = -0.0, |lambda| below
+        // e^-40 down to the smallest subnormal (the draw stops at 4e-18), x one ulp from 1, and for the shifted form alpha = +-0,
+        // x + alpha exactly 0 (rejected), x + alpha one ulp of x above / below 0, and alpha cancelling x to a tiny positive sum
+        {
+            let one_shifted = |xs: f64, l: f64, a: f64, fd: &mut Found| {
+                let y = xs + a;
+                let inp = format!("x={:e} lambda={:e} alpha={:e}", xs, l, a);
+                if crumbs_on() { crumb(&inp); }
+                let res = catch(|| boxcox_shifted(xs, l, a));
+                if y > 0.0 {
+                    match res {
+                        Err(_) => fd.fail("boxcox_shifted:rejects-valid-domain", 1.0, format!("boxcox_shifted({:e}, {:e}, {:e}) panicked although x + alpha = {:e} > 0", xs, l, a, y), inp),
+                        Ok(got) => {
+                            let want = boxcox_ref(y, l);
+                            let d = (got - want).abs(); let tol = 1e-12 * want.abs() + 1e-300;
+                            if !(d <= tol) { fd.fail("boxcox_shifted:inaccurate", d / tol, format!("boxcox_shifted({:e}, {:e}, {:e}) = {:e}, ((x+alpha)^l - 1)/l = {:e}", xs, l, a, got, want), inp); }
+                        }
+                    }
+                } else if let Ok(got) = res {
+                    fd.fail("boxcox_shifted:accepts-outside-domain", 1.0, format!("boxcox_shifted({:e}, {:e}, {:e}) returned {:e} although x + alpha = {:e} <= 0", xs, l, a, got, y), inp);
+                }
+            };
+            let one = |x: f64, l: f64, fd: &mut Found| {
+                crumbf!("x={:e} lambda={:e}", x, l);
+                match catch(|| boxcox(x, l)) {
+                    Err(_) => fd.fail("boxcox:rejects-valid-domain", 1.0, format!("boxcox({:e}, {:e}) panicked although x > 0", x, l), format!("x={:e} lambda={:e}", x, l)),
+                    Ok(got) => {
+                        let want = boxcox_ref(x, l);
+                        let d = (got - want).abs(); let tol = 1e-12 * want.abs() + 1e-300;
+                        if !(d <= tol) { fd.fail("boxcox:inaccurate", d / tol, format!("boxcox({:e}, {:e}) = {:e}, (x^l - 1)/l = {:e} (relative error {:e})", x, l, got, want, d / want.abs()), format!("x={:e} lambda={:e}", x, l)); }
+                    }
+                }
+            };
+            let up = |v: f64| f64::from_bits(v.to_bits() + 1);
+            let dn = |v: f64| f64::from_bits(v.to_bits() - 1);
+            let xs_edge = [up(1e-6), 1e-6 * 1.5, 1e-5, 1e-3, 0.1, 0.5, dn(1.0), up(1.0), 1.5, 2.0, 3.0, 10.0, 1e3, 1e5, 1e6 / 1.5, dn(1e6)];
+            let ls_edge = [5.0, -5.0, dn(5.0), -dn(5.0), 4.5, -4.5, 1.0, -1.0, 0.0, -0.0, 1e-8, -1e-8, 1e-9, -1e-9, 1e-17, -1e-17, 1e-30, -1e-30, 1e-100, -1e-100,
+                           1e-200, -1e-200, 1e-300, -1e-300, f64::MIN_POSITIVE, -f64::MIN_POSITIVE, 1e-310, -1e-310, 1e-315, -1e-320, 1.5e-323, -1e-323, 5e-324, -5e-324];
+            for x in xs_edge { for l in ls_edge {
+                tried += 1; one(x, l, &mut fd);
+                for a in [0.0, -0.0, x, -x / 2.0, 1e6, 1e-6] { tried += 1; one_shifted(x, l, a, &mut fd); }
+                // the boundary of the domain: x + alpha = 0 exactly, and the nearest sums on either side
+                for a in [-x, -dn(x), -up(x)] { tried += 1; one_shifted(x, l, a, &mut fd); tried += 1; one_shifted(-x, l, -a, &mut fd); }
+            } }
+            let m = if thorough { 100000 } else { 10000 };
+            for i in 0..m {
+                let x = if i % 5 == 0 { 1.0 + (if r.coin(0.5) { 1.0 } else { -1.0 }) * (10.0f64).powf(-r.uniform(3.0, 15.7)) } else { (r.uniform((1e-6f64).ln(), (1e6f64).ln())).exp() };
+                // |lambda| log-uniform from e^-745 (smallest subnormal) to e^-18: all of |lambda| < 1e-8
+                let l = (r.uniform(-745.2, -18.0)).exp() * if r.coin(0.5) { 1.0 } else { -1.0 };
+                tried += 1; one(x, l, &mut fd);
+                // a shift that cancels x down to a relative distance 1e-1 .. 1e-16 (both orders of sign), and a plain one
+                let rel = (10.0f64).powf(-r.uniform(1.0, 16.0));
+                let (xs, a) = match i % 3 { 0 => (x, -x * (1.0 - rel)), 1 => (-x, x * (1.0 + rel)), _ => (x, r.uniform(-0.5, 2.0) * x) };
+                tried += 1; one_shifted(xs, l, a, &mut fd);
+                // the same cancelling shifts with an ordinary lambda
+                let l2 = if i % 2 == 0 { r.uniform(-5.0, 5.0) } else { *r.pick(&[5.0, -5.0, 0.0, -0.0, 1.0, -1.0, 0.5, 2.0]) };
+                tried += 1; one_shifted(xs, l2, a, &mut fd);
+            }
+        }
         for x in [0.0, -0.0, -1.0, -1e-300, f64::NEG_INFINITY, f64::NAN] { for l in [0.0, 1.0, -0.5] {
             tried += 1;
             crumbf!("x={:e} lambda={:e}", x, l);
@@ -271,6 +405,30 @@ pub fn oracle(tier: &str, seed: u64) -> (u64, Vec<Finding>) {
             let got = binom_coeff_alt(n as u64, k as u64);
             if got as u128 != tri[n][k] { fd.fail("binom_alt:wrong-below-documented-threshold", 1.0, format!("binom_coeff_alt({}, {}) = {}, C(n,k) = {}", n, k, got, tri[n][k]), format!("n={} k={}", n, k)); }
         } }
+        // (audit) the edge of "C(n,k) < 2^64 for k <= 32": for every k <= 33 the LARGEST n whose coefficient still fits (and the
+        // few rows below it), value and symmetry; n = 2^64 - 1 itself with k in {0, 1, n - 1, n}
+        for k in 1..=33u64 {
+            let (mut lo, mut hi) = (k, u64::MAX);           // C(lo,k) fits; find the last n that does
+            if binom_u128(hi, k).is_none() { while hi - lo > 1 { let mid = lo + (hi - lo) / 2; if binom_u128(mid, k).is_some() { lo = mid; } else { hi = mid; } } } else { lo = hi; }
+            for n in lo.saturating_sub(3).max(k)..=lo {
+                let want = binom_u128(n, k).unwrap();
+                for kk in [k, n - k] {
+                    tried += 1;
+                    crumbf!("n={} k={}", n, kk);
+                    let got = binom_coeff(n, kk);
+                    if got != want {
+                        let class = if got == 0 { "binom:zero-without-overflow" } else if kk == k { "binom:wrong-value" } else { "binom:asymmetric" };
+                        fd.fail(class, 1.0, format!("binom_coeff({}, {}) = {}, C(n,k) = {} < 2^64", n, kk, got, want), format!("n={} k={}", n, kk));
+                    }
+                }
+            }
+        }
+        for (n, k, want) in [(u64::MAX, 0u64, 1u64), (u64::MAX, 1, u64::MAX), (u64::MAX, u64::MAX - 1, u64::MAX), (u64::MAX, u64::MAX, 1), (u64::MAX - 1, 1, u64::MAX - 1), (1, 0, 1), (1, 1, 1), (0, 0, 1)] {
+            tried += 1;
+            crumbf!("n={} k={}", n, k);
+            let got = binom_coeff(n, k);
+            if got != want { fd.fail(if got == 0 { "binom:zero-without-overflow" } else { "binom:wrong-value" }, 1.0, format!("binom_coeff({}, {}) = {}, C(n,k) = {} < 2^64", n, k, got, want), format!("n={} k={}", n, k)); }
+        }
         let m = if thorough { 200000 } else { 20000 };
         for i in 0..m {
             // n log-uniform over the whole u64 range; k <= 32 among those whose coefficient fits
@@ -339,6 +497,7 @@ pub fn gen(tier: &str, seed: u64, outdir: &str) {
     for _ in 0..40 * k { lp.push((1.0 - (r.uniform(-36.0, 0.0)).exp(), "logit/near-1")); }
     for _ in 0..40 * k { lp.push((if r.coin(0.5) { -(r.uniform(-700.0, 3.0)).exp() } else { 1.0 + (r.uniform(-36.0, 10.0)).exp() }, "logit/malformed-outside")); }
     for p in specials.iter().chain([1.0 - EPS / 2.0, 1.0 + EPS, 0.25, 0.75, 2.0, -0.5].iter()) { lp.push((*p, "logit/special")); }
+    for i in 0..(20 * k as u64) { lp.push((f64::from_bits(1 + i * 37), "logit/edge:subnormal-p")); lp.push((f64::from_bits((1.0f64).to_bits() - 1 - i), "logit/edge:last-below-1")); }
     for (p, tag) in lp {
         let (t, e) = one(|| logit(p));
         all.push((app("CLogit", vec![libm_table(&t), Tm::F(p), e]), tag.into(), p != 0.5));
@@ -355,6 +514,34 @@ pub fn gen(tier: &str, seed: u64, outdir: &str) {
         let (t, e) = one(|| boxcox_shifted(xs, l, a));
         let tag = if !(xs + a > 0.0) { "boxcox_shifted/malformed-domain" } else if l == 0.0 { "boxcox_shifted/lambda=0" } else { "boxcox_shifted/power" };
         all.push((app("CBoxcoxShifted", vec![libm_table(&t), Tm::F(xs), Tm::F(l), Tm::F(a), e]), tag.into(), true));
+    }
+    // (audit) corners of the stated rectangle, lambda = +-0 / +-5 / tiny down to the smallest subnormal (u = lambda * ln x subnormal
+    // or 0: the `u == 0.` branch), x = 1 and its neighbours (ln x = 0), alpha = +-0, x + alpha = 0 exactly and one ulp either side
+    {
+        let up = |v: f64| f64::from_bits(v.to_bits() + 1);
+        let dn = |v: f64| f64::from_bits(v.to_bits() - 1);
+        let xs_edge = [up(1e-6), 1e-3, 0.5, dn(1.0), 1.0, up(1.0), 1.5, 3.0, 1e3, dn(1e6)];
+        let ls_edge = [5.0, -5.0, 0.0, -0.0, 1e-8, -1e-9, 1e-17, -1e-100, 1e-300, f64::MIN_POSITIVE, -1e-310, 1e-315, -1e-320, 1.5e-323, 5e-324, -5e-324];
+        for x in xs_edge { for l in ls_edge {
+            let (t, e) = one(|| boxcox(x, l));
+            all.push((app("CBoxcox", vec![libm_table(&t), Tm::F(x), Tm::F(l), e]), "boxcox/edge:corner-or-tiny-lambda".into(), true));
+            for (xx, a) in [(x, 0.0), (x, -0.0), (x, -x), (-x, x), (x, -dn(x)), (x, -up(x)), (-x, up(x)), (x, x)] {
+                if r.coin(0.5) { continue; }
+                let (t, e) = one(|| boxcox_shifted(xx, l, a));
+                let tag = if !(xx + a > 0.0) { "boxcox_shifted/edge:boundary-of-domain-rejected" } else { "boxcox_shifted/edge:tiny-lambda-or-tiny-sum" };
+                all.push((app("CBoxcoxShifted", vec![libm_table(&t), Tm::F(xx), Tm::F(l), Tm::F(a), e]), tag.into(), true));
+            }
+        } }
+        for _ in 0..(60 * k) {
+            let x = (r.uniform((1e-6f64).ln(), (1e6f64).ln())).exp();
+            let l = (r.uniform(-745.2, -18.0)).exp() * if r.coin(0.5) { 1.0 } else { -1.0 };
+            let (t, e) = one(|| boxcox(x, l));
+            all.push((app("CBoxcox", vec![libm_table(&t), Tm::F(x), Tm::F(l), e]), "boxcox/edge:corner-or-tiny-lambda".into(), true));
+            let a = -x * (1.0 - (10.0f64).powf(-r.uniform(1.0, 16.0)));
+            let (t, e) = one(|| boxcox_shifted(x, l, a));
+            let tag = if !(x + a > 0.0) { "boxcox_shifted/edge:boundary-of-domain-rejected" } else { "boxcox_shifted/edge:tiny-lambda-or-tiny-sum" };
+            all.push((app("CBoxcoxShifted", vec![libm_table(&t), Tm::F(x), Tm::F(l), Tm::F(a), e]), tag.into(), true));
+        }
     }
     for x in specials { for l in [0.0, 1.0, -0.5, f64::NAN, f64::INFINITY] {
         let (t, e) = one(|| boxcox(x, l));
@@ -388,6 +575,18 @@ pub fn gen(tier: &str, seed: u64, outdir: &str) {
             all.push((app("CSoftmax", vec![libm_table(&t), fl(&x), e]), tag.into(), nontrivial));
         }
     }
+    // (audit) length 999, entries within a few ulps of each other, one dominant entry at +-1e4, magnitudes up to f64::MAX
+    for (n, kind) in [(999usize, 0), (1, 1), (2, 1), (9, 1), (64, 1), (8, 2), (1000, 2), (2, 3), (5, 3), (17, 3)] {
+        let x: Vec<f64> = match kind {
+            0 => (0..n).map(|_| r.uniform(-1e4, 1e4)).collect(),
+            1 => { let c = r.uniform(-1e4, 1e4); (0..n).map(|_| f64::from_bits(c.to_bits() + r.below(4))).collect() }
+            2 => { let mut v = vec![-1e4; n]; v[n - 1] = 1e4; v[0] = if n > 8 { 1e4 } else { -1e4 }; v }
+            _ => { let sc = *r.pick(&[1e10, 1e100, 1e300, f64::MAX]); (0..n).map(|i| if i == 0 { sc } else if i == n - 1 { -sc } else { r.uniform(-1.0, 1.0) * sc }).collect() }
+        };
+        let xc = x.clone();
+        let (t, e) = many(|| softmax(&xc));
+        all.push((app("CSoftmax", vec![libm_table(&t), fl(&x), e]), "softmax/edge:size-ulp-ties-dominant-huge".into(), n >= 2));
+    }
     for x in [vec![f64::NAN], vec![f64::NEG_INFINITY], vec![f64::INFINITY], vec![f64::NEG_INFINITY, f64::NEG_INFINITY], vec![f64::NAN, 1.0], vec![1.0, f64::NAN], vec![0.0, -0.0], vec![-0.0, 0.0], vec![-0.0], vec![-0.0, -0.0, 0.0],
               vec![f64::NAN, f64::NAN, 2.0, f64::NEG_INFINITY], vec![1000.0, 1000.0], vec![f64::INFINITY, 1.0], vec![f64::INFINITY, f64::INFINITY]] {
         let xc = x.clone();
@@ -412,6 +611,14 @@ pub fn gen(tier: &str, seed: u64, outdir: &str) {
         let tag = if binom_u128(n, kk).is_some() { "binom/large-n:fits" } else { "binom/large-n:overflow" };
         bin(n, kk, tag, &mut all);
     }
+    // (audit) for every k <= 33 the largest n whose coefficient fits in 64 bits, the rows just below and the first that does not; n = 2^64 - 1
+    for kk in 1..=33u64 {
+        let (mut lo, mut hi) = (kk, u64::MAX);
+        if binom_u128(hi, kk).is_none() { while hi - lo > 1 { let mid = lo + (hi - lo) / 2; if binom_u128(mid, kk).is_some() { lo = mid; } else { hi = mid; } } } else { lo = hi; }
+        for n in lo.saturating_sub(2).max(kk)..=lo { bin(n, kk, "binom/edge:largest-n-that-fits", &mut all); bin(n, n - kk, "binom/edge:largest-n-that-fits", &mut all); }
+        if lo < u64::MAX { bin(lo + 1, kk, "binom/edge:first-n-that-overflows", &mut all); }
+    }
+    for (n, kk) in [(u64::MAX, 0u64), (u64::MAX, 1), (u64::MAX, u64::MAX - 1), (u64::MAX, u64::MAX), (u64::MAX, 2), (u64::MAX - 1, 1)] { bin(n, kk, "binom/edge:n=2^64-1", &mut all); }
     for n in [1000u64, 5000, 20000] { bin(n, 2, "binom/large-n:fits", &mut all); bin(n, n - 3, "binom/large-n:fits", &mut all); bin(2 * n, n, "binom/large-n:overflow", &mut all); }
 
     // binom_coeff_alt (gamma-based): all k <= n <= 40 (100 thorough), sampled up to n = 400 (gamma overflows beyond 171)
@@ -431,5 +638,5 @@ pub fn gen(tier: &str, seed: u64, outdir: &str) {
     for i in (1..all.len()).rev() { let j = r.below(i as u64 + 1) as usize; all.swap(i, j); }
     let mut cs = Cases::new("C17");
     for (t, tag, nt) in all { cs.push(t, &tag, nt); }
-    cs.write(outdir, 400, "logistic on +-40, +-745, tiny, integer and special arguments; logit on [0,1], near both ends, outside (panics) and specials; boxcox/boxcox_shifted with x log-uniform in (1e-6,1e6), lambda in +-5 incl. 0, -0, |lambda| < 1e-8 and 1e-18..1e-8, shifts of both signs, out-of-domain and special arguments; softmax at every length 0..24, random lengths to 144, every residue mod 8 in 400..960, length 1000, entries to +-1e4, signed zeros/inf/NaN/subnormals/ties/constant vectors; binom_coeff_alt (gamma-based, model = C09's gamma + ln/exp/round + saturating cast) for all k <= n <= 40 (100 thorough) and sampled n to 400; binom_coeff for ALL 0 <= k <= n <= 67, n in 68..100 (140 thorough) where values wrap or the guard fires, k > n, and n up to 2^64-1 with small k or n-k; each transform case carries the libm calls the implementation made; non-trivial = logistic x != 0, logit p != 1/2, softmax length >= 2 and not constant, binom 1 <= k < n; distinct by hash of the case term");
+    cs.write(outdir, 400, "logistic on +-40, +-745, tiny, integer and special arguments; logit on [0,1], near both ends, outside (panics) and specials; boxcox/boxcox_shifted with x log-uniform in (1e-6,1e6), lambda in +-5 incl. 0, -0, |lambda| < 1e-8 and 1e-18..1e-8, shifts of both signs, out-of-domain and special arguments, plus the corners x next to 1e-6 / 1e6 with lambda = +-5, lambda down to the smallest subnormal (lambda * ln x subnormal or 0), x = 1 and its neighbours, alpha = +-0, x + alpha = 0 exactly and one ulp either side, cancelling shifts; logit also on the first subnormals and the last doubles below 1; softmax at every length 0..24, random lengths to 144, every residue mod 8 in 400..960, length 1000, entries to +-1e4, signed zeros/inf/NaN/subnormals/ties/constant vectors, length 999, entries a few ulps apart, one dominant entry, magnitudes to f64::MAX; binom_coeff_alt (gamma-based, model = C09's gamma + ln/exp/round + saturating cast) for all k <= n <= 40 (100 thorough) and sampled n to 400; binom_coeff for ALL 0 <= k <= n <= 67, n in 68..100 (140 thorough) where values wrap or the guard fires, k > n, n up to 2^64-1 with small k or n-k, and for every k <= 33 the largest n whose coefficient fits in 64 bits (with the rows below and the first that overflows); each transform case carries the libm calls the implementation made; non-trivial = logistic x != 0, logit p != 1/2, softmax length >= 2 and not constant, binom 1 <= k < n; distinct by hash of the case term");
 }
